@@ -60,7 +60,17 @@ func contractsFor(specs *Specs, prop string) []*Contract {
 	var out []*Contract
 	for _, k := range sortedKeys(specs.Contracts) {
 		c := specs.Contracts[k]
-		if c.External || c.Trusted {
+		if c.External {
+			continue
+		}
+		if c.Trusted {
+			// only the structural clauses of a trusted contract are checkable (against the body's call instructions)
+			for _, nc := range c.NoCalls {
+				if hasProp(nc.Props, prop) {
+					out = append(out, c)
+					break
+				}
+			}
 			continue
 		}
 		rel := hasProp(c.Props, prop) || hasProp(c.FrameProps, prop) || hasProp(c.SweepProps, prop)
@@ -175,7 +185,12 @@ func runCheck(cfg checkCfg) int {
 			missing = append(missing, ct.Key)
 			continue
 		}
-		vc := genFunction(ld, specs, fn, ct, GenOpts{Safety: true, Prop: cfg.prop})
+		var vc *FuncVC
+		if ct.Trusted {
+			vc = genStructural(ld, specs, fn, ct)
+		} else {
+			vc = genFunction(ld, specs, fn, ct, GenOpts{Safety: true, Prop: cfg.prop})
+		}
 		runs = append(runs, &funcRun{vc: vc, ct: ct})
 	}
 	// interface refinements whose contracts carry the property
